@@ -613,14 +613,10 @@ def run(chk):
                         chk.known(known["fractional_kb"]["what_fails"])
                     else:
                         problem = "regenerated text loses fractional kilobases (class fractional_kb not listed as known)"
-        if problem and (rules2 is None) and "not not " in text and out[:2] == [1, common.ERR["RuleSyntaxError"]]:
-            # finding class double_negation_wrapped: "not ((not x))" is regenerated as "not not x"
-            chk.count("roundtrip_double_negation_wrapped")
-            if "double_negation_wrapped" in known:
-                chk.known(known["double_negation_wrapped"]["what_fails"])
-                problem = None
-            else:
-                problem += " (class double_negation_wrapped not listed as known)"
+        if "not (not " in text:
+            # regression class double_negation_text / double_negation_wrapped (both repaired): the regenerated text
+            # of a doubled negation keeps its parentheses; a failure here is an ordinary counterexample
+            chk.count("roundtrip_double_negation")
         if problem:
             chk.violation("counterexample", "round trip: " + problem,
                           {"theorem_or_correspondence": "C02 round trip / DetectionRule.reconstruct_rule_text",
@@ -631,13 +627,18 @@ def run(chk):
 
     tmpdir = tempfile.mkdtemp(prefix="asv_c02_")
     try:
-        # corpus: witnesses of the two repaired defects (recursive alias, doubled negation) and of the scaling class
+        # corpus: witnesses of the repaired defects (recursive alias; doubled negation, direct and wrapped in
+        # non-negated one-member groups) and of the scaling class
         corpus = [
             (["DEFINE x AS a or x\nRULE r1 CATEGORY cat CUTOFF 1 NEIGHBOURHOOD 1 CONDITIONS x"], (1, 1, 1, 1)),
             (["DEFINE x AS al2\nDEFINE al2 AS x or a\nRULE r1 CATEGORY cat CUTOFF 1 NEIGHBOURHOOD 1 CONDITIONS x"], (1, 1, 1, 1)),
             (["RULE r1 CATEGORY cat CUTOFF 1 NEIGHBOURHOOD 1 CONDITIONS a and not (not b)"], (1, 1, 1, 1)),
             (["RULE r1 CATEGORY cat CUTOFF 5 NEIGHBOURHOOD 3 CONDITIONS a or b and c"], (3, 2, 1, 2)),
             (["RULE r1 CATEGORY cat CUTOFF 1 NEIGHBOURHOOD 1 CONDITIONS a and not ((not b))"], (1, 1, 1, 1)),
+            (["RULE r1 CATEGORY cat CUTOFF 1 NEIGHBOURHOOD 1 CONDITIONS a and not (((not (b or c))))"], (1, 1, 1, 1)),
+            (["RULE r1 CATEGORY cat CUTOFF 1 NEIGHBOURHOOD 1 CONDITIONS a and not ((not cds(b and c)))\n"
+              "RULE r2 CATEGORY cat CUTOFF 1 NEIGHBOURHOOD 1 CONDITIONS a and not ((not minimum(2, [b, c]))) "
+              "or c and not ((not minscore(b, 5)))"], (1, 1, 1, 1)),
             (["RULE r1 CATEGORY cat CUTOFF 5 NEIGHBOURHOOD 5 CONDITIONS a",
               "RULE r2 CATEGORY cat SUPERIORS r1 CUTOFF 5 NEIGHBOURHOOD 5 CONDITIONS b",
               "RULE r3 CATEGORY cat SUPERIORS r2 CUTOFF 5 NEIGHBOURHOOD 5 CONDITIONS c"], (1, 1, 1, 1)),
